@@ -1985,6 +1985,12 @@ class Executor:
                 # reals are never NaN / infinite (floats as reals)
                 def nonfinite(x, _n=name):
                     if is_scalar(exact(x)):
+                        xe = exact(x)
+                        if _n == 'isinf' and getattr(self, 'model_exp_overflow', False) and isinstance(xe, z3.ExprRef) and z3.is_app(xe) and \
+                                xe.decl().name() == 'exp' and xe.num_args() == 1:
+                            # opt-in (overflow guards under contract): whether exp(t) overflows the floating-point range is an uninterpreted
+                            # predicate of t, so that the guarded branch is explored and WHAT the guard tests can be stated
+                            return z3.Function('exp_overflows', RealS, z3.BoolSort())(xe.arg(0))
                         return False
                     if isinstance(x, VList) and x.kind == 'ndarray':
                         return VList([nonfinite(i) for i in x.items], 'ndarray')
